@@ -37,5 +37,7 @@ package archiver
 //@   loop retry invariant [attempts] 0 <= retry && retry <= config.config.MaxRetry && attempts == old(attempts) + retry && config.config != nil && config.config.MaxRetry == old(config.config.MaxRetry) && config.config.Proxy == old(config.config.Proxy) && globalArchiver == old(globalArchiver) && globalArchiver != nil && globalArchiver.Client == old(globalArchiver.Client) && globalArchiver.ClientWithProxy == old(globalArchiver.ClientWithProxy) && req != nil && item.url != nil // C06: each URL is attempted at most --max-retry + 1 times per visit
 //@   loop retry invariant [own-request] @C05 http.reqTarget(req) == http.reqTarget(old(item.url.request))
 //@   ensures [sent-own] @C05 http.lastSentTarget() == http.reqTarget(old(item.url.request)) // C05: the only request sent for a node is the one the preprocessor attached to it
+//@   loop retry invariant [bodies-closed] @C16 http.nOpened() - io.nCloses() == old(http.nOpened() - io.nCloses()) // C16: retry paths drain and close response bodies
+//@   ensures [one-body-left] @C16 http.nOpened() - io.nCloses() <= old(http.nOpened() - io.nCloses()) + 1 // C16: no response body ... remains open (at most the accepted response, handed to the post-processor which closes it)
 //@   ensures [retry-bound] attempts <= old(attempts) + old(config.config.MaxRetry) + 1 // C06: each URL is attempted at most --max-retry + 1 times per visit
 //@   ensures [attempted] attempts >= old(attempts) + 1
